@@ -166,17 +166,27 @@ def run_case(case, ctx):
     elif not is_sec_cfg and not ops_form and not degenerate and label in ("stR", "direct-Redfield", "Lindblad-tensor", "direct-TDRedfield", "cRF"):
         # secularise a tensor-form object ourselves, both code paths
         legacy = bool(rng.random() < 0.5)
+        # the tensor may or may not have been looked at inside the context before it is secularised there
+        read_first = bool(rng.random() < 0.5)
+        from quantarhei import Manager
         with ctx.lib("RelaxationTensor.secularize(legacy=%s)" % legacy, mechanism=None):
+            T_out = numpy.array(R.data, copy=True)
             with qr.eigenbasis_of(hsec):
-                before = numpy.array(R.data, copy=True)
+                S = numpy.array(Manager().basis_transformations[-1], dtype=float)
+                if read_first:
+                    before = numpy.array(R.data, copy=True)
                 if label == "direct-TDRedfield":
                     R.secularize()
                 else:
                     R.secularize(legacy=legacy)
                 after = numpy.array(R.data, copy=True)
+        if not read_first:
+            before = numpy.einsum("ia,jb,...ijkl,kc,ld->...abcd", S, S, T_out, S, S)
         sc = max(float(numpy.max(numpy.abs(before))), 1e-300)
-        ctx.check("secular-elements-kept", float(numpy.max(numpy.abs(after - before)[..., pat])), 0.0, dict(det, legacy=legacy))
-        ctx.check("secular-others-zero", float(numpy.max(numpy.abs(after[..., ~pat]))), 0.0, dict(det, legacy=legacy))
+        tol0 = 0.0 if read_first else 1e-12 * sc * dim * dim
+        ctx.check("secular-elements-kept", float(numpy.max(numpy.abs(after - before)[..., pat])), tol0, dict(det, legacy=legacy, read_before_secularize=read_first))
+        ctx.check("secular-others-zero", float(numpy.max(numpy.abs(after[..., ~pat]))), 0.0, dict(det, legacy=legacy, read_before_secularize=read_first))
+        ctx.sub(("self-secularize", label, legacy, read_first), nontrivial=True)
         identities(ctx, after, det, ".data after secularize() inside eigenbasis_of(H)")
         with ctx.lib("reading the secularised tensor outside", mechanism=None):
             identities(ctx, numpy.array(R.data), det, ".data after secularize(), read outside")
